@@ -32,8 +32,8 @@ type vpC24Prop struct {
 }
 
 func TestVP_C24_retire_requeues(t *testing.T) {
-	c := kit.New(t, "C24", "rapid: on a real node's own chain, 1..6 in-flight local proposals (aggregators + verifier entries installed exactly as an announcement does) over 2..8 transactions with overlaps; per transaction: finalized or not, body in the cache / only in the ledger store / nowhere; per proposal: snapshot time relative to now (expired after a round gap or not), commitment and response counts relative to the threshold; all transactions start in flight (queued, then retrieved); one retirement operation runs: expiry at 'now', abandon-and-retry of one proposal, or a round reset with an owned set; oracle: draining the cache queue afterwards must contain every transaction of a retired proposal that is unfinalized, has a body and is not in a still-active proposal (reset: not owned); must not contain transactions that belong only to still-active proposals, are finalized, have no body, or are owned; shared retired/active transactions may go either way; retired aggregators are gone, active ones and their verifier entries stay (reset clears all); no transaction remains guarded (verifier entry of the current round younger than a round gap, the duplicate rule of cosiSendAnnouncement) by a retired proposal; non-trivial = >=2 proposals sharing a transaction with both a retired and an active one; distinct by scenario")
-	c.Require("expire", "retry", "reset", "shared-retired-active", "finalized-tx", "bodyless-tx", "persist-only-body", "completed-not-expired", "owned", "challenge-phase", "retired-within-gap")
+	c := kit.New(t, "C24", "rapid: on a real node's own chain, 1..6 in-flight local proposals (aggregators + verifier entries installed exactly as an announcement does) over 2..8 transactions with overlaps; per transaction: finalized or not, body in the cache / only in the ledger store / nowhere; per proposal: snapshot time relative to now (expired after a round gap or not), commitment and response counts relative to the threshold; all transactions start in flight (queued, then retrieved); in a third of the cases the own chain's round then moves on through the finalization path (two certified snapshots of the own chain delivered by peers, the second opening the next round) while the proposals of the previous round stay in flight; one retirement operation runs: expiry at 'now', abandon-and-retry of one proposal, or a round reset with an owned set; oracle: draining the cache queue afterwards must contain every transaction of a retired proposal that is unfinalized, has a body and is not in a still-active proposal (reset: not owned); must not contain transactions that belong only to still-active proposals, are finalized, have no body, or are owned; shared retired/active transactions may go either way; retired aggregators are gone, active ones and their verifier entries stay (reset clears all); no transaction remains guarded (verifier entry of the current round younger than a round gap, the duplicate rule of cosiSendAnnouncement) by a retired proposal; non-trivial = >=2 proposals sharing a transaction with both a retired and an active one; distinct by scenario")
+	c.Require("expire", "retry", "reset", "shared-retired-active", "finalized-tx", "bodyless-tx", "persist-only-body", "completed-not-expired", "owned", "challenge-phase", "retired-within-gap", "expire-after-round-moved-on", "retry-after-round-moved-on")
 	kit.SetChecks(kit.N(120, 3000))
 	rapid.Check(t, func(t *rapid.T) {
 		e := vpC16Start("c24")
@@ -145,6 +145,38 @@ func TestVP_C24_retire_requeues(t *testing.T) {
 			chain.CosiAggregators[s.Hash] = agg
 			props = append(props, p)
 		}
+		// while the proposals are in flight the own chain's round may move on
+		// through the finalization path (peers deliver finalized snapshots of the
+		// node's own chain: one in the running round, one opening the next)
+		movedOn := false
+		if rapid.IntRange(0, 2).Draw(t, "round_moves_on") == 0 {
+			before := chain.State.CacheRound.Number
+			for step := 0; step < 2; step++ {
+				if step == 0 && len(chain.State.CacheRound.Snapshots) > 0 {
+					continue
+				}
+				e.seq++
+				dep := e.net.BTCDeposit(common.NewInteger(1), step, fmt.Sprintf("0xc24-own-%d", e.seq), e.seq)
+				e.clock += uint64(50 * time.Millisecond)
+				if step == 1 {
+					e.clock += config.SnapshotRoundGap + uint64(100*time.Millisecond)
+				}
+				s := e.k.NextSnapshot(0, []crypto.Hash{dep.PayloadHash()}, e.clock, step == 1, 1+rapid.IntRange(0, 5).Draw(t, "own_ext"))
+				e.k.Certify(s, 0)
+				fin, pan, err := e.finalize(s, []*common.VersionedTransaction{dep})
+				if !fin || pan != nil || err != nil {
+					t.Fatalf("harness: own chain snapshot (step %d): %v %v %v", step, fin, pan, err)
+				}
+			}
+			if chain.State.CacheRound.Number != before+1 {
+				t.Fatalf("harness: own chain round %d -> %d", before, chain.State.CacheRound.Number)
+			}
+			if e.clock >= now {
+				t.Fatalf("harness: ledger clock passed now")
+			}
+			movedOn = true
+			classes["round-moved-on"] = true
+		}
 		// operation
 		op := rapid.SampledFrom([]string{"expire", "expire", "retry", "reset"}).Draw(t, "op")
 		owned := map[crypto.Hash]bool{}
@@ -174,6 +206,9 @@ func TestVP_C24_retire_requeues(t *testing.T) {
 			chain.resetCosiStateForNewRound(list)
 		}
 		classes[op] = true
+		if movedOn {
+			classes[op+"-after-round-moved-on"] = true
+		}
 		drained, err := store.CacheRetrieveTransactions(1000)
 		if err != nil {
 			t.Fatal(err)
